@@ -2,6 +2,7 @@
 from checks import full_step
 from checks import extra_audits
 from checks import api_cov
+from checks import scale_inv
 LEAN_TARGETS = ["drv_step", "QmcProofs.Refinement", "QmcProps.C06", "drv_c06"]
 BINS = ["fullstep", "c06"]
 
@@ -61,4 +62,5 @@ def main(ck):
         ck.correspond("rvb-zero-word", "drv_c06", cases)
     full_step.run(ck)   # whole-timestep exact trajectories, Ising and generic sampler
     api_cov.run(ck, "c06")   # otherwise unexercised public API, model-free oracles of this property
+    scale_inv.run(ck, "c03")   # power-of-two unit change: identical trajectory, energies exactly scaled (model-free twin oracle)
     return ck.finish(RULE)
